@@ -96,7 +96,20 @@ func init() {
 				case nested:
 					sig = "C06/nested-exec-no-fee"
 				case hasWrk && hasBcn:
-					sig = "C06/shared-fee-across-modules"
+					// the listed finding: each module's decorator compares the whole fee with its own module's sum only, so
+					// such a transaction is admitted exactly when the fee equals the WRKChain sum and equals the BEACON sum.
+					// Any other admitted amount is a different violation.
+					var wOps, bOps []*BuiltOp
+					for _, o := range bt.Ops {
+						if o.IsFeeOp && o.Module == "wrk" {
+							wOps = append(wOps, o)
+						} else if o.IsFeeOp {
+							bOps = append(bOps, o)
+						}
+					}
+					if ws, bs := w.ExpectedFees(wOps)[d], w.ExpectedFees(bOps)[d]; ws != nil && bs != nil && got.Cmp(ws) == 0 && got.Cmp(bs) == 0 {
+						sig = "C06/shared-fee-across-modules"
+					}
 				}
 				if got.Cmp(want) != 0 {
 					msg := fmt.Sprintf("admitted by CheckTx with %s%s offered in the fee denomination (full fee %s) but the operations cost exactly %s%s (wrap=%d, ops=%d)", got, d, bt.Fee, want, d, bt.Tx.Wrap, len(bt.Ops))
